@@ -185,6 +185,15 @@ def run(pid, tier):
                 cmds.append([drv, path, str(s), str(shards), str(WHAT[pid]), out])
         vlib.run_many(cmds, timeout=1200)
         events, rejects, notes = vlib.validate(traces, "StoreTrace.tla", "StoreTrace.cfg", xmx="3g", timeout=1500)
+        ntr = len(traces)
+        if pid in ("C03", "C16"):
+            import area_float
+            e2, r2, n2 = area_float.side_rejects(work, model, tier)   # float clauses of C03 / C16
+            events, rejects, ntr = events + e2, rejects + r2, ntr + n2
+        if pid == "C02":
+            import area_scalar
+            e2, r2, n2 = area_scalar.side_bits(work, model, tier)     # single-value Elias coders, zig-zag
+            events, rejects, ntr = events + e2, rejects + r2, ntr + n2
         negc = negative_control(traces, pid)
         classes, samples = vlib.classes_of(traces, key)
         selinfo = selector_agreement(traces, predicted) if predicted else None
@@ -193,7 +202,7 @@ def run(pid, tier):
                 "VERIF_SEED, run on tiers %s with exact-size guard-page buffers; class = distinct (codec, parameter, "
                 "length, shape) for Enc and (codec, reader) for readers"
                 % (nsc, ", 65535/65536/65537" if tier == "thorough" else "", tiers))
-        return vlib.finish(pid, tier, t0, model, events, len(traces), rejects, samples, classes, rule,
+        return vlib.finish(pid, tier, t0, model, events, ntr, rejects, samples, classes, rule,
                            ["TLC evaluates StoreTrace.tla/Limbs.tla correctly",
                             "guard pages make any access at or beyond the exact buffer end observable; accesses "
                             "before a buffer are not observed",
